@@ -1,6 +1,6 @@
 //@unit sm2_limbs
 //@serves C03 C04 C05 C06 C11 C14 C15 C19 C20
-//@source gm-sm2/src/u256.rs
+//@source gm-sm2/src/u256.rs gm-sm2/src/util.rs
 //@assume byteorder::{ReadBytesExt, WriteBytesExt} on std::io::Cursor / Vec<u8> behave as the model in section `spec` (big-endian fixed-width reads/writes; Err iff fewer bytes remain)
 //@include-spec sm2_math
 //@section spec
@@ -636,4 +636,63 @@ fn u256_from_be_bytes(input: &[u8]) -> (elem: U256)
         assert(b.subrange(24, 32) =~= input@.subrange(8 * (3 - 0), 8 * (3 - 0) + 8));
     }
     elem
+}
+
+//@section spec local
+// big-endian limb order of the (unused) util::*_raw_u64 helpers: limb 0 is the most significant
+spec fn rev4(a: Seq<u64>) -> Seq<u64> { seq![a[3], a[2], a[1], a[0]] }
+proof fn lemma_mask64(r: u64) ensures r & 0xffff_ffff_ffff_ffff == r { assert(r & 0xffff_ffff_ffff_ffff == r) by(bit_vector); }
+//@section code gm-sm2/src/util.rs
+const fn add_raw_u64(a: &[u64; 4], b: &[u64; 4]) -> (res: ([u64; 4], bool))
+    ensures val4(rev4(res.0@)) + (if res.1 { r256() } else { 0 }) == val4(rev4(a@)) + val4(rev4(b@))
+{
+    let mut sum = [0; 4];
+    let mut carry = false;
+    let mut i = 3;
+    loop
+        invariant_except_break 0 <= i <= 3, pv(rev4(sum@), 3 - i as int) + (if carry { p64(3 - i as int) } else { 0 }) == pv(rev4(a@), 3 - i as int) + pv(rev4(b@), 3 - i as int),
+        ensures pv(rev4(sum@), 4) + (if carry { p64(4) } else { 0 }) == pv(rev4(a@), 4) + pv(rev4(b@), 4),
+        decreases i
+    {
+        let (t_sum, c) = {
+            let (m, c1) = a[i].overflowing_add(b[i]);
+            let (r, c2) = m.overflowing_add(carry as u64);
+            proof { lemma_mask64(r); }
+            (r & 0xffff_ffff_ffff_ffff, c1 || c2)
+        };
+        sum[i] = t_sum;
+        carry = c;
+        if i == 0 {
+            break;
+        }
+        i -= 1;
+    }
+    (sum, carry)
+}
+
+const fn sub_raw_u64(a: &[u64; 4], b: &[u64; 4]) -> (res: ([u64; 4], bool))
+    ensures val4(rev4(res.0@)) - (if res.1 { r256() } else { 0 }) == val4(rev4(a@)) - val4(rev4(b@))
+{
+    let mut r = [0; 4];
+    let mut borrow = false;
+    let mut j = 0;
+    loop
+        invariant_except_break 0 <= j <= 3, pv(rev4(r@), j as int) - (if borrow { p64(j as int) } else { 0 }) == pv(rev4(a@), j as int) - pv(rev4(b@), j as int),
+        ensures pv(rev4(r@), 4) - (if borrow { p64(4) } else { 0 }) == pv(rev4(a@), 4) - pv(rev4(b@), 4),
+        decreases 3 - j
+    {
+        let i = 3 - j;
+        let (diff, bor) = {
+            let (a, b1) = a[i].overflowing_sub(borrow as u64);
+            let (res, b2) = a.overflowing_sub(b[i]);
+            (res, b1 || b2)
+        };
+        r[i] = diff;
+        borrow = bor;
+        if j == 3 {
+            break;
+        }
+        j += 1;
+    }
+    (r, borrow)
 }
